@@ -14,23 +14,27 @@ type C01Case struct {
 }
 
 type C01Obs struct {
-	Returned     bool   `json:"returned"`
-	ElapsedMs    int64  `json:"elapsedMs"`
-	Err          string `json:"err"`
-	ErrNil       bool   `json:"errNil"`
-	AddrNil      bool   `json:"addrNil"`
-	AddrTypedNil bool   `json:"addrTypedNil"`
-	Net          string `json:"net"`
-	Addr         []byte `json:"addr"`
-	Addr2        []byte `json:"addr2,omitempty"`  // "<network> <address>" returned by a second Start
-	AddrRC       []byte `json:"addrRC,omitempty"` // the same from ReattachConfig() (real-subprocess cases)
-	Protocol     string `json:"protocol"`
-	Version      int    `json:"version"`
-	Kills        int    `json:"kills"`
-	Starts       int    `json:"starts"`
-	Panic        string `json:"panic"`
-	Dump         string `json:"dump,omitempty"`
-	KillReturned bool   `json:"killReturned"`
+	Returned      bool   `json:"returned"`
+	ElapsedMs     int64  `json:"elapsedMs"`
+	Err           string `json:"err"`
+	ErrNil        bool   `json:"errNil"`
+	AddrNil       bool   `json:"addrNil"`
+	AddrTypedNil  bool   `json:"addrTypedNil"`
+	Net           string `json:"net"`
+	Addr          []byte `json:"addr"`
+	Addr2         []byte `json:"addr2,omitempty"`   // "<network> <address>" returned by a second Start
+	AddrRC        []byte `json:"addrRC,omitempty"`  // the same from ReattachConfig() (real-subprocess cases)
+	RetryOK       bool   `json:"retryOk,omitempty"` // after a failed Start: a second Start succeeded
+	RetryAddr     string `json:"retryAddr,omitempty"`
+	RetryProtocol string `json:"retryProtocol,omitempty"`
+	RetryRC       bool   `json:"retryRC,omitempty"` // ... ReattachConfig() is non-nil
+	Protocol      string `json:"protocol"`
+	Version       int    `json:"version"`
+	Kills         int    `json:"kills"`
+	Starts        int    `json:"starts"`
+	Panic         string `json:"panic"`
+	Dump          string `json:"dump,omitempty"`
+	KillReturned  bool   `json:"killReturned"`
 }
 
 // Offered returns the application versions a host with this Sets layout offers.
